@@ -359,6 +359,31 @@ func TestC12B_FailedFrames(t *testing.T) {
 	})
 }
 
+// TestC12B_StructuredFrames: the same before/after comparison around every failed call, on
+// structured cases (evmgen.GenFrames): chains of contracts whose bodies write storage, move value,
+// emit ETXs / conversions, log, and end in SELFDESTRUCT, inside nested frames of every kind that
+// fail or succeed independently - dense in effects of a successful inner frame (including a
+// self-destruct) that an enclosing frame rolls back.
+func TestC12B_StructuredFrames(t *testing.T) {
+	rapid.Check(t, func(rt *rapid.T) {
+		c := evmgen.GenFrames(rt, evmgen.FramesOpts{Effects: []string{"convert", "etx", "transfer", "sstore", "log", "tstore", "selfdestruct"}, FailPctTop: 25, FailPctInner: 40,
+			Modes: []string{evmgen.ModeTracedEnforced, evmgen.ModeTracedBypass}})
+		o, err := c12bRun(c)
+		if err != nil {
+			rt.Fatalf("HARNESS: %v", err)
+		}
+		rp := c12bJudge(rt, "sframes", c, o)
+		stats.Case("sframes", strings.Join(rp.sig, ",")+"|"+strings.Join(c.Kinds, ","), rp.nontrivial, rp.labels...)
+		if rp.nontrivial && stats.WantSample("sframes") {
+			var fc []string
+			for _, x := range o.tr.checks {
+				fc = append(fc, fmt.Sprintf("%s pc=%d depth=%d %s effects=%v diffs=%d", x.op, x.pc, x.depth, c12bErrClass(x.frameErr, x.createRej), x.kinds, len(x.diffs)))
+			}
+			stats.Sample("sframes", map[string]any{"program": strings.Join(c.Kinds, " "), "failed_calls": fc, "tx_failed": o.failed})
+		}
+	})
+}
+
 // ---------------------------------------------------------------------------------------------
 // hand-written inputs
 
